@@ -70,10 +70,14 @@ def reference(model_kind, act_name, batches, momentum):
     mods = qmods(model)
     ref = {(n, w): None for n, _ in mods for w in ("in", "out")}
     hist = {(n, w): [] for n, _ in mods for w in ("in", "out")}
+    actual = {(n, w): [] for n, _ in mods for w in ("in", "out")}
     adopted = {}
     with torch.no_grad(), Calibration(momentum=momentum, streamline=(model_kind == "chain-streamline")):
         for x in batches:
             model(x)
+            for n_, mod_ in mods:
+                actual[(n_, "in")].append(float(mod_.input_scale))
+                actual[(n_, "out")].append(float(mod_.output_scale))
             cur = x
             for n, mod in model.named_children():
                 if any(mod is mm for _, mm in mods) and mod.activation_qtype is not None:
@@ -98,8 +102,8 @@ def reference(model_kind, act_name, batches, momentum):
     for n, mod in mods:
         if mod.activation_qtype is None:
             continue
-        out.append((n, "in", float(mod.input_scale), ref[(n, "in")], hist[(n, "in")]))
-        out.append((n, "out", float(mod.output_scale), ref[(n, "out")], hist[(n, "out")]))
+        out.append((n, "in", float(mod.input_scale), ref[(n, "in")], hist[(n, "in")], actual[(n, "in")]))
+        out.append((n, "out", float(mod.output_scale), ref[(n, "out")], hist[(n, "out")], actual[(n, "out")]))
     return out
 
 
@@ -274,13 +278,13 @@ def replay(rec):
     rows = reference(inp["model"], inp["act"], batches, mom)
     rows09 = reference(inp["model"], inp["act"], batches, 0.9) if mom != 0.9 else rows
     bad, keys = [], set()
-    for (n, w, got, exp, hist), (_, _, got9, exp9, _) in zip(rows, rows09):
+    for (n, w, got, exp, hist, act_), (_, _, got9, exp9, _, _) in zip(rows, rows09):
         if exp is None:
             continue
         tol = 1e-5 * abs(exp) + 1e-30
         if abs(got - exp) > tol:
             bad.append(f"{n}.{w}_scale = {got!r}, momentum-{mom} average of the batch ranges is {exp!r} (history {hist})")
-            if any(h == 1.0 for h in hist[:-1]):
+            if any(h == 1.0 for h in list(hist[:-1]) + list(act_[:-1])):
                 keys.add("C12/scale-one-sentinel")
             elif w == "in" and abs(got - exp9) <= 1e-5 * abs(exp9):
                 keys.add("C12/input-momentum-ignored")
